@@ -27,7 +27,7 @@ type c19Variant struct {
 }
 
 func genC19(t *rapid.T) *c19Case {
-	cfg := gen.ImgCfg{MaxSide: 40, BigChance: 3, BigSide: 120, Kinds: []string{"nrgba"}, Places: []string{"tight"}}
+	cfg := gen.ImgCfg{MaxSide: 40, BigChance: 3, BigSide: 120, Kinds: []string{"nrgba"}, Places: []string{"tight"}, LargePermille: 3}
 	if tierThorough() {
 		cfg.MaxSide, cfg.BigSide = 64, 280
 	}
